@@ -345,7 +345,9 @@ def run(ctx):
     ctx.absorb(it)
 
     # ---- R14.2 angular data
-    pi_f = p.get_method(ND, "_periodic_data_interpolator")
+    from .fc import inline_value_calls
+    from .c13 import INTERPOLATOR_VOCABULARY
+    pi_f = inline_value_calls(p, p.get_method(ND, "_periodic_data_interpolator"), keep=INTERPOLATOR_VOCABULARY)
     it3 = Interp(p, opaque={WRAPDIFF: "wrapdiff"})
     me = Obj(p.get_class(ND), {"data_period": P("data_period")}, "nd")
     from .c13 import _interpolator_roles
